@@ -266,6 +266,13 @@ def r4(ctx):
       sig = idx(lambda e: e.kind == 'call' and U(e.node.func).endswith('on_faulted.Set'))
       ctx.ob('C08.R4', sd, 'fault shutdown raises the fault signal', len(sig) == 1, 'fault signals: %d' % len(sig), why)
   ctx.floor('C08.R4', 'active shutdown paths', n, 2)
+  idem = False
+  for ev, ex in enum_paths(ctx, sd):
+    fs = [(U(e.node).replace(' ', ''), e.info) for e in ev if e.kind == 'cond']
+    if (('notself.isActive', True) in fs or ('self.isActive', False) in fs) and not [e for e in ev if e.kind in ('call', 'stmt')]:
+      idem = True
+  ctx.ob('C08.R4', sd, 'an inactive transport ignores a second shutdown', idem, 'no early-return path for an already closed transport',
+         why + ' (a second shutdown would fail requests registered after a re-open, close the new socket and raise the fault signal again)')
   # body of the loop fails the entry's stack with an error message
   lp = [n_ for n_ in ast.walk(sd.node) if isinstance(n_, ast.For) and '_tag_map' in U(n_.iter)]
   if lp:
